@@ -202,6 +202,16 @@ func sinksMain(args []string) {
 				if err != nil {
 					res = "err E_NOT_MARSHALED"
 				}
+				// exactly the bytes stored for the configured format (JSON when unset), an error when there are none
+				want, has := tbl[map[bool]string{true: "json", false: fmtNames[cfg]}[cfg == 0]]
+				switch {
+				case !has && err == nil:
+					oracle("C13 FileSink(/dev/stdout) with format %q reported success although the event has no bytes for that format (it wrote %q)", fmtNames[cfg], got)
+				case has && err == nil && string(got) != string(want):
+					oracle("C13 FileSink(/dev/stdout) wrote %q, the bytes stored for its format are %q", got, want)
+				case has && err != nil:
+					oracle("C13 FileSink(/dev/stdout) failed (%v) although the event has the bytes of its format", err)
+				}
 				o.emit(strings.TrimSpace(fmt.Sprintf("fsspecial 2 %d %s", cfg, strings.Join(toks, " "))), strings.TrimSpace(res))
 				st.hit("fsspecial:stdout")
 			}
